@@ -1,6 +1,7 @@
 package zzverif
 
 import (
+	"verifsim/simrt"
 	"math/big"
 	"bytes"
 	"encoding/binary"
@@ -226,6 +227,7 @@ type qWorld struct {
 	stolenAtExit int64
 	readyAtExit  map[string]bool
 	lastRestartAt time.Time
+	steering  bool      // yield rules installed by the current operation (removed after its settle)
 	mainStart time.Time // when the current daemon's Main (and its scan ticker) started
 	burstOps []Op
 	burstAdmin map[string]int // status of the administrative calls of the current burst
@@ -767,6 +769,16 @@ func (w *qWorld) opSub(op Op) {
 	if op.S == "raceclose" {
 		// the other consumers of this topic leave at the very moment this one
 		// subscribes (for an ephemeral topic: its deletion races the SUB)
+		if strings.HasSuffix(topic, "#ephemeral") && op.D&(1<<20) != 0 {
+			// steer: the topic's deletion pauses between emptying the topic and
+			// unlinking it until somebody looks the topic up
+			w.rc.Sched.Rules = []*simrt.Rule{
+				{Hold: "nsqd.NSQD.DeleteExistingTopic#3", Until: "nsqd.NSQD.GetTopic#0", MaxSpin: 300},
+				{Hold: "nsqd.NSQD.GetTopic#0", Until: "nsqd.NSQD.DeleteExistingTopic#3", MaxSpin: 300, OneShot: true},
+			}
+			w.steering = true
+			w.rc.Probe("steered_subscribe_vs_topic_unlink")
+		}
 		for _, x := range w.cons {
 			if x != co && x.Topic == topic && x.Subscribed && !x.Dead {
 				w.rc.Logf("closing %s while %s subscribes", x.cl.Name, cl.Name)
